@@ -33,7 +33,16 @@ def run_case(case):
                     # the SAME option dict object handed to two consecutive opens (a session that keeps one options dict)
                     ceos_alos2.open_alos2(url, backend_options=opts)
                 tree = ceos_alos2.open_alos2(url, backend_options=opts)
+                # a fixed sequence of PARTIAL reads on the freshly opened tree (several requests into the same groups of lines), the
+                # same for every rpc: what they return is part of "what is read", and must not depend on rpc either
+                partial = {}
+                for im in b.images:
+                    da = tree[f"imagery/{im['group']}/data"]
+                    n_ = im["n"]
+                    seq = [slice(0, 2), slice(2, 4), slice(1, 2), slice(n_ // 2, n_), slice(0, 1), slice(n_ - 1, n_), slice(0, n_, 2)]
+                    partial[im["group"]] = [da.isel(rows=s_).values.tobytes().hex() for s_ in seq]
                 fp = project.fingerprint(tree)
+                fp["partial reads"] = {"vars": {}, "attrs": {}, "order": [], "children": [], "values": partial}
             except BaseException as e:  # noqa: B902
                 res["bad"].append((rpc, f"open/load failed: {type(e).__name__}: {str(e)[:150]}"))
                 continue
